@@ -158,7 +158,7 @@ func valueType(s Schema, t Term) string {
 		case "const":
 			out = "reference to a constant"
 		default:
-			out = "referenced struct, " + map[string]string{"struct": "partial", "structfull": "complete"}[t.Default] + " default"
+			out = "referenced struct, " + map[string]string{"struct": "partial", "structfull": "complete", "nest1": "partial (over a struct with its own struct default)", "nest2": "partial"}[t.Default] + " default"
 		}
 	case "array":
 		out = "list of " + valueType(s, t.Sub[0])
@@ -168,10 +168,10 @@ func valueType(s Schema, t Term) string {
 	case "map":
 		out = "map"
 	case "struct":
-		out = "inline struct, " + map[string]string{"struct": "partial", "structfull": "complete"}[t.Default] + " default"
+		out = "inline struct, " + map[string]string{"struct": "partial", "structfull": "complete", "nest1": "partial (over a struct with its own struct default)", "nest2": "partial"}[t.Default] + " default"
 	case "disj":
 		if t.Disc {
-			out = "discriminated union branch, " + map[string]string{"struct": "partial", "structfull": "complete"}[t.Default] + " default"
+			out = "discriminated union branch, " + map[string]string{"struct": "partial", "structfull": "complete", "nest1": "partial (over a struct with its own struct default)", "nest2": "partial"}[t.Default] + " default"
 		} else {
 			which := "first"
 			if t.Default == "branch2" {
@@ -194,6 +194,10 @@ type expectation struct {
 	Required bool
 	Constant bool
 	Want     any // JSON value (json.Number for numbers)
+	// ViaPass names the schema transformation that declares the default ("" = the source schema itself)
+	ViaPass string
+	// Note refines the value type in the failure kind (position of the constant in a `const | type` union)
+	Note string
 }
 
 func (e expectation) pos() string {
@@ -245,6 +249,26 @@ func expectations(s Schema) []expectation {
 				out = append(out, expectation{Object: obj, Path: p, T: ft, Required: f.Required, Want: s.DefaultValue(ft)})
 				continue
 			}
+			if pi, ok := passOf(s); ok && obj == "Root" && len(path) == 0 {
+				// disjunction_with_constant_to_default: "`type | constant` becomes `type` with the constant as default"
+				if pi.ConstDisj && ft.K == "disj" && len(ft.Sub) == 2 {
+					for bi, b := range ft.Sub {
+						if c, isConst := constantOf(s, b); isConst {
+							note := "constant listed last"
+							if bi == 0 {
+								note = "constant listed first"
+							}
+							out = append(out, expectation{Object: obj, Path: p, T: ft, Required: f.Required, Want: c, ViaPass: pi.Name, Note: note})
+						}
+					}
+					continue
+				}
+				// fields_set_default: "sets the default value for the given fields"
+				if v, set := pi.SetDefaults[f.Name]; set {
+					out = append(out, expectation{Object: obj, Path: p, T: ft, Required: f.Required, Want: v, ViaPass: pi.Name})
+					continue
+				}
+			}
 			if ft.K == "struct" && f.Required && !ft.Nullable {
 				// a required inline struct is part of its parent's value
 				fields(obj, p, ft)
@@ -278,7 +302,7 @@ func inScope(s Schema, e expectation, format string) (ok bool, why string) {
 		// in CUE every open list `[...T]` already has the default `[]`, so `| *[]` declares nothing new
 		return false, "CUE: an empty-list default is what every open list already has"
 	}
-	if e.T.K == "ref" && format != "cue" {
+	if e.T.K == "ref" && format != "cue" && e.ViaPass == "" {
 		return false, "default beside $ref (ignored by draft-07 / OpenAPI 3.0)"
 	}
 	objs := []Obj{{Name: "Root", T: irgen.Struct1("f", true, e.T)}}
@@ -424,6 +448,30 @@ func restrict(want, got any) any {
 	return out
 }
 
+func suffixed(l []string, suffix string) []string {
+	if suffix == "" {
+		return l
+	}
+	out := make([]string, len(l))
+	for i, x := range l {
+		out[i] = x + suffix
+	}
+	return out
+}
+
+// structTarget resolves a field type to the struct its values are instances of.
+func structTarget(s Schema, t Term) (Term, bool) {
+	switch t.K {
+	case "struct":
+		return t, true
+	case "ref":
+		if target, ok := s.Lookup(refTarget(t)); ok && target.K == "struct" {
+			return target, true
+		}
+	}
+	return Term{}, false
+}
+
 // ---- main ---------------------------------------------------------------------------------
 
 type ctorResult struct {
@@ -443,6 +491,9 @@ func main() {
 	if r.Replay != "" {
 		_, witness, _ := r.ReplayFile()
 		want := witness[strings.Index(witness, " :: ")+4:]
+		if i := strings.Index(want, " +pass:"); i >= 0 {
+			want = want[:i]
+		}
 		var pick []Schema
 		for _, s := range c10Schemas(true) {
 			if s.String() == want {
@@ -460,6 +511,14 @@ func main() {
 	prep, err := genrun.PrepareGo(ws, schemas, func(u *genrun.Unit) {
 		u.Go = &genrun.GoOpts{JSONMarshaller: true}
 		u.Python, u.PythonJSON = true, true
+		// unit ids are s<schema index><format letter>: schemas that declare defaults
+		// through a transformation get that pass enabled (transformations.schemas)
+		var idx int
+		if _, err := fmt.Sscanf(u.ID, "s%04d", &idx); err == nil && idx < len(schemas) {
+			if pi, ok := passOf(schemas[idx]); ok {
+				u.PassesYAML = pi.YAML
+			}
+		}
 	}, nil, nil)
 	if err != nil {
 		ws.Close()
@@ -496,7 +555,14 @@ func main() {
 			if diag != "" {
 				base += ": " + diag
 			}
-			base += " @ " + e.pos() + " " + valueType(c.Schema, e.T)
+			vt := valueType(c.Schema, e.T)
+			if e.ViaPass != "" {
+				if e.Note != "" {
+					vt = valueType(c.Schema, e.T.Sub[0]) + "|" + valueType(c.Schema, e.T.Sub[1]) + ", " + e.Note
+				}
+				vt += " (declared through " + e.ViaPass + ")"
+			}
+			base += " @ " + e.pos() + " " + vt
 			bump("fail:" + clause)
 			// The same schema failing the same way in an earlier format is one
 			// finding, reported there; the kind names the first format that shows it,
@@ -514,9 +580,9 @@ func main() {
 			}
 			r.Fail(vx.Failure{
 				Kind:    kind,
-				Witness: c.Format + " :: " + c.Schema.String(),
+				Witness: c.Format + " :: " + c.Schema.String() + witnessSuffix(c.Schema),
 				Size:    c.Schema.Size()*10 + formatRank(c.Format),
-				Parents: genrun.CaseParents(c.Schema, c.Format),
+				Parents: suffixed(genrun.CaseParents(c.Schema, c.Format), witnessSuffix(c.Schema)),
 				What:    fmt.Sprintf("%s schema %s, object %s field %s (declared %s): %s", c.Format, c.Schema.String(), e.Object, strings.Join(e.Path, "."), vx.JSON(e.Want), what),
 				Detail:  detail,
 			})
@@ -640,6 +706,13 @@ func main() {
 				o.val, o.present = lookupPath(res.doc, e.Path)
 				o.how, o.detail = deviation(e.Want, o.val, o.present)
 				distinct[lang+":"+label+":"+o.how] = true
+				if e.ViaPass != "" {
+					res := "holds"
+					if o.how != "" {
+						res = o.how
+					}
+					bump("via " + e.ViaPass + " [" + c.Format + "] " + e.Note + ": " + lang + " " + res)
+				}
 				if o.how == "" {
 					bump("holds: " + lang + " " + label)
 				} else {
@@ -684,6 +757,53 @@ func main() {
 				default:
 					_, d := deviation(gv, pv, p.present)
 					fail(e, "go-vs-python-differ", d, fmt.Sprintf("Go encodes %s and Python encodes %s", g.text, p.text), map[string]any{"go": g.text, "python": p.text})
+				}
+				// Fields of the struct a struct default instantiates that carry their own
+				// declared default/constant and are not named by the override: the statement
+				// does not say what they hold, but "the two languages agree with each other
+				// on those fields" applies to them as to any field with a declared default.
+				if tt, ok := structTarget(c.Schema, e.T); ok && !e.Constant && g.present && p.present {
+					named, _ := e.Want.(map[string]any)
+					gdoc, pdoc := goCtor(e.Object).doc, pyCtor(e.Object).doc
+					var nested func(tt Term, path []string, named map[string]any, depth int)
+					nested = func(tt Term, path []string, named map[string]any, depth int) {
+						for i, f := range tt.Fields {
+							if _, overridden := named[f.Name]; overridden {
+								continue
+							}
+							ft := tt.Sub[i]
+							var want any
+							if cst, isConst := constantOf(c.Schema, ft); isConst && !ft.Nullable {
+								want = cst
+							} else if ft.Default != "" {
+								want = c.Schema.DefaultValue(ft)
+							} else {
+								continue
+							}
+							np := append(append([]string{}, path...), f.Name)
+							gv, gok := lookupPath(gdoc, np)
+							pv, pok := lookupPath(pdoc, np)
+							bump("go-vs-python compared (nested declared fields)")
+							if gok != pok || gok && canon(restrict(want, gv)) != canon(restrict(want, pv)) {
+								gh, gd := deviation(want, gv, gok)
+								ph, pd := deviation(want, pv, pok)
+								if gh == "" {
+									gh, gd = "holds the nested declared default", ""
+								}
+								if ph == "" {
+									ph, pd = "holds the nested declared default", ""
+								}
+								ne := expectation{Object: e.Object, Path: np, T: ft, Required: f.Required, Want: want}
+								fail(ne, "go-vs-python-differ", strings.TrimSpace("nested in a struct default: go "+gh+" "+gd+"; python "+ph+" "+pd), fmt.Sprintf("inside the struct default of %s: Go New%s() encodes to %s; Python %s() encodes to %s", strings.Join(e.Path, "."), e.Object, g.text, e.Object, p.text), map[string]any{"go": g.text, "python": p.text})
+								continue
+							}
+							if nt, ok := structTarget(c.Schema, ft); ok && depth > 0 {
+								nm, _ := want.(map[string]any)
+								nested(nt, np, nm, depth-1)
+							}
+						}
+					}
+					nested(tt, e.Path, named, 2)
 				}
 				if g.how == "" && p.how == "" && same {
 					samples.Add(map[string]any{"format": c.Format, "schema": c.Schema.String(), "object": e.Object, "field": strings.Join(e.Path, "."), "declared": e.Want, "go": g.text, "python": p.text})
